@@ -19,7 +19,7 @@ CLASSES = {
     'Exception': dict(fields={'report_error': 'any'}, bases=[]),
     'SECoPError': dict(fields={'report_error': 'any'}),
     'Parameter': dict(fields={'datatype': 'DataType', 'value': 'float|none', 'readerror': 'SECoPError|none', 'timestamp': 'float|none',
-                              'omit_unchanged_within': 'float', 'export': 'any', 'name': 'str'},
+                              'omit_unchanged_within': 'float', 'export': 'str', 'name': 'str'},
                       inv=['self.timestamp is None or self.timestamp >= 0', 'self.omit_unchanged_within >= 0',
                            'self.readerror is None or is_instance_of(self.readerror, SECoPError)']),
     'Module': dict(fields={'name': 'str', 'parameters': 'dict:Parameter', 'paramCallbacks': 'dict:list:tuple|callable:paramcallback|tuple',
@@ -50,12 +50,13 @@ CONTRACTS = [
                             " nth(args, 1, 'Parameter').readerror, nth(args, 1, 'Parameter').timestamp)]"},
          raises='never'),
     dict(key='paramcallback', file=None, func=None, packed_args=True, serves=[], trusted=True, requires=[], ensures={}, raises={}),
-    dict(key='Module.announceUpdate', vc=False, file='frappy/modulebase.py', func='Module.announceUpdate', serves=['C05'],
+    dict(key='Module.announceUpdate', file='frappy/modulebase.py', func='Module.announceUpdate', serves=['C05'],
          self_type='Module', params={'pname': 'str', 'timestamp': 'float|none', 'validate': 'bool', 'err': 'Exception|none'},
-         requires=['inv(self)', 'pname in self.parameters', 'timestamp is None or timestamp >= 0', 'pname in self.paramCallbacks',
+         requires=['inv(self)', 'pname in self.parameters', 'timestamp is None or (is_finite_float(timestamp) and timestamp >= 0)', 'pname in self.paramCallbacks',
 
-                   'self.parameters[pname].export is not False and self.parameters[pname].export is not None'
-                   " and self.parameters[pname].export != ''"],
+                   "self.parameters[pname].export != ''",
+                   # stated domain of the proof: a float parameter (values of other kinds: bounded stand-in)
+                   'value is None or is_finite_float(value)', 'implies(err is None and not validate, is_finite_float(value))'],
          modifies=['value', 'readerror', 'timestamp', 'report_error', 'args'], check_frame=False,
          ensures={'emit_or_silent': 'Emitted(self, pname, old(sent), sent)'
                                     ' or Silent(self, pname, old(sent), sent, old(self.parameters[pname].readerror))',
